@@ -2,8 +2,7 @@
 # check.sh <property id> <quick|thorough> [extra vcheck flags]
 # Mirrors /repo's current working tree (instrumented), builds the harness against it, runs the check.
 # exit 0 = held on everything explored (KNOWN-FINDING lines possible); 1 = VIOLATION; 2 = internal error.
-ID="$1"; TIER="${2:-quick}"; shift 2
-[ -n "${VERIF_TIER:-}" ] && TIER="$VERIF_TIER"
+ID="$1"; TIER="${2:-${VERIF_TIER:-quick}}"; shift; [ $# -gt 0 ] && shift
 HERE="$(cd "$(dirname "$0")" && pwd)"
 WORK="${VERIF_WORK:-$HOME/.cache/verif-work}/run.$$"
 export VERIF_SCRATCH="$WORK/scratch"
